@@ -463,6 +463,7 @@ async fn run_send(enumerated: bool) {
     };
     // the receiver grants little credit, so that credit taken by a cancelled send matters
     let credit = pick(&[1u32, 2, 3, 100]);
+    let credit_floor_for_held = 8u32;
     // ... or grants it by hand in steps with pauses in between, during which pending sends wait
     // for credit (and are cancelled while they wait)
     let manual_steps: Option<Vec<u32>> = if choice(2) == 1 {
@@ -568,6 +569,31 @@ async fn run_send(enumerated: bool) {
                         None => return,
                     }
                 }
+                let held: Rc<RefCell<std::collections::VecDeque<fe2o3_amqp::Delivery<Body<Value>>>>> = Rc::new(RefCell::new(std::collections::VecDeque::new()));
+                let stop_late = Rc::new(std::cell::Cell::new(false));
+                {
+                    let (held, stop_late, disposer) = (held.clone(), stop_late.clone(), r.disposer());
+                    sim::spawn("listener-late-accepter", async move {
+                        // (bounded: a run that is stuck for another reason must not be kept busy by this task)
+                        let mut accepted = 0u64;
+                        let mut rounds = 0u32;
+                        while !stop_late.get() && accepted < n_pre && rounds < 400 {
+                            rounds += 1;
+                            sim::sleep_ms(pick(&[1u64, 1, 2, 5, 20])).await;
+                            if choice(3) == 1 {
+                                continue;
+                            }
+                            let h = held.borrow_mut().pop_front();
+                            if let Some(h) = h {
+                                if disposer.accept(&h).await.is_err() {
+                                    break;
+                                }
+                                accepted += 1;
+                                sim::probe("outstanding-delivery-settled-between-sends");
+                            }
+                        }
+                    });
+                }
                 let mut steps = manual_steps2.clone().unwrap_or_default().into_iter();
                 let mut granted_left = 0u32;
                 if manual_steps2.is_some() {
@@ -577,6 +603,8 @@ async fn run_send(enumerated: bool) {
                         return;
                     }
                 } else {
+                    // (deliveries that are held back unaccepted do not bring credit back)
+                    let credit = if n_pre > 0 { credit.max(credit_floor_for_held) } else { credit };
                     r.set_credit_mode(CreditMode::Auto(credit));
                     if sim::op("set_credit", r.set_credit(credit)).await.is_none() {
                         return;
@@ -605,10 +633,18 @@ async fn run_send(enumerated: bool) {
                     match sim::op("peer recv", r.recv::<Body<Value>>()).await {
                         Some(Ok(d)) => {
                             granted_left = granted_left.saturating_sub(1);
+                            let u = msgs::uid_of(d.message()).unwrap_or(0);
+                            if u < 100 {
+                                // an earlier batchable delivery: accepted later, by a task of its own
+                                // through the link's disposer, while the sender is busy with (and
+                                // cancelling) other sends
+                                rec2.borrow_mut().push(d.message().clone());
+                                held.borrow_mut().push_back(d);
+                                continue;
+                            }
                             if sim::op("peer accept", r.accept(&d)).await.is_none() {
                                 return;
                             }
-                            let u = msgs::uid_of(d.message()).unwrap_or(0);
                             rec2.borrow_mut().push(d.into_message());
                             if u == last_uid {
                                 break;
@@ -619,6 +655,18 @@ async fn run_send(enumerated: bool) {
                             return;
                         }
                         None => return,
+                    }
+                }
+                stop_late.set(true);
+                loop {
+                    let h = held.borrow_mut().pop_front();
+                    match h {
+                        Some(h) => {
+                            if sim::op("peer accept (held)", r.accept(&h)).await.is_none() {
+                                return;
+                            }
+                        }
+                        None => break,
                     }
                 }
                 if let Ok(Ok(extra)) = tokio::time::timeout(std::time::Duration::from_millis(200), r.recv::<Body<Value>>()).await {
